@@ -105,7 +105,13 @@ def run_case(case):
                 args[p] = np.array(r.randint(-5, 5)) if r.random() < 0.6 else np.array([r.randint(-5, 5) for _ in range(r.randint(1, 3))])
         out["sig"] = f"leaf={leaf_len} productmap n={n} kinds={''.join(k_[3] for k_ in kinds)} mapped={k} out={outkind} sigorder={[ps.index(v) for v in vars_] == sorted(ps.index(v) for v in vars_)}"
         try:
+            listed = list(vars_)
+            productmap(f, vars_)              # a first dispatcher built from the same list object
             res = _call_twice(r, productmap(f, vars_), {p: jnp.asarray(v) for p, v in args.items()})
+            if vars_ != listed:
+                vs.append({"clause": "entry (i1..ik) = function at the i1-th..ik-th elements, axes in the order the names were listed",
+                           "detail": f"def f({sig}): productmap changed the caller's list of names from {listed} to {vars_}", "key": "C19:loops"})
+                return out
         except Exception as e:  # noqa: BLE001
             vs.append({"clause": "productmap evaluates", "detail": f"def f({sig}) variables {vars_}: {impl_site(e)}: {str(e)[:200]}", "key": "C19:eval"})
             return out
@@ -172,7 +178,13 @@ def run_case(case):
                 args[p] = np.array(r.randint(-5, 5))
         out["sig"] = f"leaf={leaf_len} spacemap n={n} kinds={''.join(k_[3] for k_ in kinds)} dense={len(dense)} sparse={len(sparse)} dense_first={dense_first} out={outkind}"
         try:
+            listed = (list(dense), list(sparse))
+            spacemap(f, dense_vars=dense, sparse_vars=sparse, put_dense_first=dense_first)      # same list objects, built twice
             res = _call_twice(r, spacemap(f, dense_vars=dense, sparse_vars=sparse, put_dense_first=dense_first), {p: jnp.asarray(v) for p, v in args.items()})
+            if (dense, sparse) != listed:
+                vs.append({"clause": "entry (i1..ik) = function at the i1-th..ik-th elements, axes in the order the names were listed",
+                           "detail": f"def f({sig}): spacemap changed the caller's lists of names from {listed} to {(dense, sparse)}", "key": "C19:loops"})
+                return out
         except Exception as e:  # noqa: BLE001
             vs.append({"clause": "spacemap evaluates", "detail": f"def f({sig}) dense {dense} sparse {sparse}: {impl_site(e)}: {str(e)[:200]}", "key": "C19:eval"})
             return out
